@@ -867,6 +867,16 @@ impl TransportManager {
                 ?error,
                 "connection limit exceeded, rejecting connection",
             );
+
+            // The rejected connection concludes the dial that produced it. Forget the dial
+            // record, otherwise the peer stays in the dialing state forever: the pending
+            // connection was removed above, so no transport event can ever clear it.
+            if !endpoint.is_listener() {
+                if let Some(context) = self.peers.write().get_mut(&peer) {
+                    context.state.on_dial_failure(endpoint.connection_id());
+                }
+            }
+
             return Ok(ConnectionEstablishedResult::Reject);
         }
 
@@ -1364,6 +1374,34 @@ impl TransportManager {
                                         .get_mut(&transport)
                                         .expect("transport to exist")
                                         .reject(endpoint.connection_id());
+
+                                    // A rejected outbound connection is a failed dial from the
+                                    // point of view of the protocols waiting for it.
+                                    if !endpoint.is_listener()
+                                        && !self.peers.read().get(&peer).is_some_and(|context| {
+                                            std::matches!(context.state, PeerState::Connected { .. })
+                                        })
+                                    {
+                                        let address = endpoint.address().clone();
+                                        for context in self.protocols.values() {
+                                            if context
+                                                .tx
+                                                .try_send(InnerTransportEvent::DialFailure {
+                                                    peer,
+                                                    addresses: vec![address.clone()],
+                                                })
+                                                .is_err()
+                                            {
+                                                let _ = context
+                                                    .tx
+                                                    .send(InnerTransportEvent::DialFailure {
+                                                        peer,
+                                                        addresses: vec![address.clone()],
+                                                    })
+                                                    .await;
+                                            }
+                                        }
+                                    }
                                 }
                             }
                         }
